@@ -76,6 +76,7 @@ theorem noOver_apply (s : State) (a : Act) (hi : Inv s) (hx : NoOver s) : NoOver
   unfold NoOver at hx ⊢
   cases a with
   | adv => exact hx
+  | notify => simp only [apply, notify]; split <;> exact hx
   | disc =>
     simp only [apply, discard]
     split
@@ -133,6 +134,7 @@ theorem exec_cap (s : State) (as : List Act) : (exec s as).cap = s.cap := by
     | put e hr => exact (put_frame s e _).2.2.1
     | adv => rfl
     | disc => simp only [apply, discard]; split <;> rfl
+    | notify => simp only [apply, notify]; split <;> rfl
     | run =>
       simp only [apply, runStep]; split <;> try rfl
       unfold wake; split
